@@ -87,6 +87,26 @@ def run(F, R):
     decode_tables_rule(F, R, 'Q10', ['device::sound', 'device::input', 'device::socket'])
 
 
+def poll_rule(F, R, rule):
+    """Q1's poll obligations under another property's rule id: after every return of a poll each buffer is back in the queue
+    under its own descriptor (the invariant that lets pop trust a device-reported token)."""
+    M = model(F)
+    M.require_rings()
+    roles = C05.classify_api(C05.queue_api(F, M))
+    byrole = {}
+    for k, v in roles.items():
+        byrole.setdefault(v, []).append(k)
+    if not M.owning_adt:
+        return      # configuration without the owning queue (no alloc): nothing to decide
+    polls = [b for b in F.bodies.values() if b.get('impl_adt') == M.owning_adt and 'impl_trait' not in b and b.get('pub') and b['kind'] == 'AssocFn'
+             and any(bl['term']['k'] == 'call' and bl['term'].get('trait') in ('core::ops::FnOnce', 'core::ops::FnMut', 'core::ops::Fn') for bl in b['blocks'])]
+    if not polls:
+        raise Undecided('no public owning-queue method invokes a handler closure')
+    P = RuleProxy(R, {'Q1': rule})
+    for b in polls:
+        q1_poll(F, P, M, b, roles, byrole)
+
+
 def buffer_slot_terms(t):
     """Index/slot selections inside a buffer operand: get_mut(buffers, idx) calls and loc index projections."""
     out = []
